@@ -9,5 +9,5 @@ p=/verif/twins/$id/patch.diff
 [ -f $p ] || p=/verif/seeded/$id/patch.diff
 (cd $d && patch -p1 -s -f < $p) || echo "PATCH FAILED"
 for prop in "$@"; do
-  (cd /verif && /venv/bin/python -W ignore -m vt check $prop --root $d 2>&1 | grep -vE 'KNOWN-FINDING' | cut -c1-500 | tail -12)
+  (cd "$(dirname "$0")/.." && /venv/bin/python -W ignore -m vt check $prop --root $d 2>&1 | grep -vE 'KNOWN-FINDING' | cut -c1-500 | tail -12)
 done
